@@ -84,9 +84,29 @@ TOL = P.TOL
 
 
 # --------------------------------------------------------------------------- helpers
+# Mechanisms of genuine defects found on the unchanged tree (see the final report / known_findings.json).  They fire on a large
+# share of the cases that use unsorted qubits, so after a few witnesses per shard further hits are counted as events and do not
+# crowd other mechanisms out of the worker's bounded violation list.
+KNOWN_MECHANISMS = {
+    "C15:prepare_two_qubit_state:wrong-state-when-q0-sorts-after-q1",
+    "C15:prepare_two_qubit_state:near-product-state-prepared-as-product",
+    "C15:quantum_shannon_decomposition:global-phase-lost-when-low-qubits-unsorted",
+    "C15:quantum_shannon_decomposition:IndexError-when-2q-block-synthesis-touches-one-qubit",
+    "C15:two_qubit_matrix_to_cz_isometry:3-cz-because-num_cnots_required-underestimates-near-class-boundary",
+}
+_HITS = {}
+
+
 def _emit(ctx, verdicts, **wit):
     ok = True
     for mon, mech, good, msg in verdicts:
+        if not good and mech in KNOWN_MECHANISMS:
+            _HITS[mech] = _HITS.get(mech, 0) + 1
+            if _HITS[mech] > 3 and not ctx.replaying:
+                ctx.ok(mon)
+                ctx.event("repeat-of:" + mech)
+                ok = False
+                continue
         ok = ctx.check(good, mon, mech, msg, **wit) and ok
     return ok
 
@@ -143,7 +163,10 @@ def sec_kak(ctx, rng, case):
     ctx.check(L.allclose(ku, u, TOL), "KakDecomposition:unitary", "C15:KakDecomposition:unitary-differs",
               lambda: "cirq.unitary(KakDecomposition) differs from the decomposed matrix by %.3g" % L.maxdiff(ku, u), **wit)
     vec = cirq.kak_vector(u, check_preconditions=bool(rng.integers(2)))
-    _emit(ctx, P.post_kak_vector(u, vec), **wit)
+    pv = P.post_kak_vector(u, vec)
+    _emit(ctx, pv, **wit)
+    if pv.inexact:
+        ctx.event("kak_vector:z-sign-forced-outside-atol-band(>1e-6)")
     ctx.check(P.same_kak_vector(vec, k.interaction_coefficients), "kak_vector==kak_decomposition", "C15:kak_vector:differs-from-decomposition",
               "kak_vector %r vs decomposition coefficients %r" % (list(map(float, vec)), list(map(float, k.interaction_coefficients))), **wit)
     mine = W.weyl_coordinates(u)
@@ -353,7 +376,9 @@ def sec_cz(ctx, rng, case):
                   "C15:two_qubit_matrix_to_cz_operations:clean-changes-cz-count", "counts %r" % counts, **wit)
     # num_cnots_required against the reference class, outside the grey band
     nc = cirq.num_cnots_required(u)
-    hi, lo = W.cz_class(coords, 1e-10), W.cz_class(coords, 1e-6)
+    # its atol is applied to traces of gamma(U), which are second order in the distance from a class boundary (e.g. Im tr ~ 4 y z
+    # near CZ), so anything closer than 1e-3 to a lower class is treated as undecided here
+    hi, lo = W.cz_class(coords, 1e-10), W.cz_class(coords, 1e-3)
     if hi == lo:
         ctx.check(nc == hi, "num_cnots_required==reference", "C15:num_cnots_required:wrong-class",
                   "num_cnots_required = %d, Weyl coordinates %r need %d" % (nc, coords, hi), **wit)
@@ -371,7 +396,12 @@ def sec_cz(ctx, rng, case):
     ctx.event("diag+cz:%d-cz" % n)
     iops = cirq.two_qubit_matrix_to_cz_isometry(q0, q1, u, partial, atol, clean)
     v, d, n = P.post_cz_isometry(q0, q1, u, iops, partial, atol, clean)
-    _emit(ctx, v, allow_partial_czs=partial, clean_operations=clean, **wit)
+    if n == 3 and nc < 3 and abs(coords[2]) > 0.5 * atol:
+        # explained-by: the diagonal is only split off when num_cnots_required(mat) == 3 (default atol 1e-8, applied to a trace
+        # that is second order in the distance from the 2-CZ class), but the CZ synthesis sees |z| >= atol and spends 3 CZs
+        v = [(mon, mech.replace("more-than-2-cz", "3-cz-because-num_cnots_required-underestimates-near-class-boundary"), ok, msg)
+             for mon, mech, ok, msg in v]
+    _emit(ctx, v, allow_partial_czs=partial, clean_operations=clean, coords=coords, num_cnots_required=nc, **wit)
     ctx.distinct(("cz", _fp(u), atol), nontrivial=_nontrivial(u))
     ctx.sample({"label": info["label"], "delta": info["delta"], "atol": atol, "coords": list(coords),
                 "cz_counts": {"%s/%s" % k: n_ for k, n_ in counts.items()}})
@@ -608,9 +638,39 @@ def sec_multiq(ctx, rng, case):
         else:
             u, label = UW.gen_n_qubit(rng, case // 4, n)
         qs = _qubits(rng, n)
-        ops = list(cirq.quantum_shannon_decomposition(qs, u))
-        v, d, n2 = P.post_shannon(qs, u, ops, 1e-8, TOL * (4 ** max(0, n - 3)))
-        _emit(ctx, v, u=u, label=label, n=n)
+        try:
+            ops = list(cirq.quantum_shannon_decomposition(qs, u))
+        except IndexError as e:
+            import traceback as _tb
+
+            inner = _tb.extract_tb(e.__traceback__)[-1].name
+            mech = "C15:quantum_shannon_decomposition:exception:IndexError@" + inner
+            if inner == "_global_phase_difference":
+                # known mechanism: the CZ synthesis of a two-qubit block touches fewer than two qubits, so the circuit unitary
+                # that _global_phase_difference indexes with a position of the 4x4 block is 2x2 (or 1x1).  For n == 2 this is
+                # re-checked from outside; for n > 2 the blocks are internal and the raising frame is the evidence.
+                explained = True
+                if n == 2:
+                    touched = set()
+                    for op in cirq.two_qubit_matrix_to_cz_operations(qs[0], qs[1], u, allow_partial_czs=True):
+                        touched.update(op.qubits)
+                    explained = len(touched) < 2
+                if explained:
+                    mech = "C15:quantum_shannon_decomposition:IndexError-when-2q-block-synthesis-touches-one-qubit"
+            _emit(ctx, [("quantum_shannon_decomposition:rebuild-exact", mech, False,
+                         "IndexError: %s on a valid %d-qubit unitary (%s)" % (e, n, label))], u=u, label=label, n=n, qubits=[repr(q) for q in qs])
+            return
+        stol = TOL * (4 ** max(0, n - 3))
+        v, d, n2 = P.post_shannon(qs, u, ops, 1e-8, stol)
+        if d > stol and n >= 2 and sorted(qs[-2:]) != list(qs[-2:]):
+            # explained-by: _global_phase_difference reads Circuit.unitary() in *sorted* qubit order; when the two least
+            # significant qubits are given in sorted order the same matrix is rebuilt exactly, and here only the phase is off
+            fresh = list(cirq.LineQubit.range(n))
+            v2, d2, _ = P.post_shannon(fresh, u, list(cirq.quantum_shannon_decomposition(fresh, u)), 1e-8, stol)
+            if d2 <= stol and L.phase_diff(P.lower(ops, qs), u) <= stol:
+                v = [(mon, mech if ok else "C15:quantum_shannon_decomposition:global-phase-lost-when-low-qubits-unsorted", ok, msg)
+                     for mon, mech, ok, msg in v]
+        _emit(ctx, v, u=u, label=label, n=n, qubits=[repr(q) for q in qs])
         ctx.event("shannon:n=%d" % n)
         ctx.distinct(("shannon", n, _fp(u)), nontrivial=_nontrivial(u))
         ctx.sample({"routine": "shannon", "n": n, "label": label, "two_qubit_gates": n2})
@@ -640,7 +700,10 @@ def sec_multiq(ctx, rng, case):
             u = np.real_if_close(u)
         qs = _qubits(rng, m + 1)
         ops = cirq.decompose_multi_controlled_rotation(u, qs[:m], qs[m])
-        v, d = P.post_multi_controlled(qs, m, ops, u, "decompose_multi_controlled_rotation")
+        # _decompose_single_ctrl drops gates that np.allclose (rtol 1e-5, atol 1e-8) calls the identity: up to ~1e-5 per dropped gate
+        v, d = P.post_multi_controlled(qs, m, ops, u, "decompose_multi_controlled_rotation", tol=1e-4)
+        if d > TOL:
+            ctx.event("mc_rotation:error>1e-6(no-op-gates-dropped)")
         _emit(ctx, v, controls=m, matrix=u, label=label)
         ctx.distinct(("mcr", m, _fp(u)), nontrivial=_nontrivial(u))
         ctx.sample({"routine": "mc_rotation", "controls": m, "label": label, "ops": len(ops)})
@@ -674,22 +737,40 @@ def sec_misc(ctx, rng, case):
         q0, q1 = _qubits(rng, 2)
         tol = 1e-5  # the routines go through a complex64 intermediate state (DESIGN 4.1: 2e-5 sqrt(dim) for c64)
         which = (case // 3) % 5
+        default_flag = rng.random() < 0.5
         if which == 0:
-            ops = cirq.prepare_two_qubit_state_using_cz(q0, q1, psi)
-            v, d, n = P.post_state_prep(q0, q1, psi, ops, lambda g: g == cirq.CZ, "prepare_two_qubit_state_using_cz", tol, s1)
+            who, want = "prepare_two_qubit_state_using_cz", cirq.CZ
+            run = lambda a, b: cirq.prepare_two_qubit_state_using_cz(a, b, psi)  # noqa: E731
         elif which in (1, 2):
             inv = which == 2
-            ops = cirq.prepare_two_qubit_state_using_iswap(q0, q1, psi, use_iswap_inv=inv) if inv or rng.random() < 0.5 else \
-                cirq.prepare_two_qubit_state_using_iswap(q0, q1, psi)
-            want = cirq.ISWAP_INV if inv else cirq.ISWAP
-            v, d, n = P.post_state_prep(q0, q1, psi, ops, lambda g: g == want, "prepare_two_qubit_state_using_iswap", tol, s1)
+            who, want = "prepare_two_qubit_state_using_iswap", (cirq.ISWAP_INV if inv else cirq.ISWAP)
+            if inv or default_flag:
+                run = lambda a, b: cirq.prepare_two_qubit_state_using_iswap(a, b, psi, use_iswap_inv=inv)  # noqa: E731
+            else:
+                run = lambda a, b: cirq.prepare_two_qubit_state_using_iswap(a, b, psi)  # noqa: E731
         else:
-            inv = which == 3
-            ops = cirq.prepare_two_qubit_state_using_sqrt_iswap(q0, q1, psi, use_sqrt_iswap_inv=inv) if not inv or rng.random() < 0.5 else \
-                cirq.prepare_two_qubit_state_using_sqrt_iswap(q0, q1, psi)
-            want = cirq.SQRT_ISWAP_INV if inv else cirq.SQRT_ISWAP
-            v, d, n = P.post_state_prep(q0, q1, psi, ops, lambda g: g == want, "prepare_two_qubit_state_using_sqrt_iswap", tol, s1)
-        _emit(ctx, v, state=psi, schmidt_small=s1, which=which)
+            inv = which == 3  # NB the documented default of use_sqrt_iswap_inv is True
+            who, want = "prepare_two_qubit_state_using_sqrt_iswap", (cirq.SQRT_ISWAP_INV if inv else cirq.SQRT_ISWAP)
+            if not inv or default_flag:
+                run = lambda a, b: cirq.prepare_two_qubit_state_using_sqrt_iswap(a, b, psi, use_sqrt_iswap_inv=inv)  # noqa: E731
+            else:
+                run = lambda a, b: cirq.prepare_two_qubit_state_using_sqrt_iswap(a, b, psi)  # noqa: E731
+        ops = run(q0, q1)
+        v, d, n = P.post_state_prep(q0, q1, psi, ops, lambda g: g == want, who, tol, s1)
+        if d > tol and n == 0 and 0 < s1 and (1 - math.sqrt(max(0.0, 1 - s1 * s1))) <= 1.2e-5 and d <= 2.5 * s1:
+            # explained-by: np.isclose(s[0], 1) (rtol 1e-5) declares states with a Schmidt coefficient up to 4.5e-3 product states;
+            # the error is then the dropped Schmidt term
+            v = [(mon, mech if ok else "C15:prepare_two_qubit_state:near-product-state-prepared-as-product", ok, msg)
+                 for mon, mech, ok, msg in v]
+        elif any(not ok for _, _, ok, _ in v) and sorted([q0, q1]) != [q0, q1]:
+            # explained-by: the routines simulate their own partial circuit with Circuit.final_state_vector() in *sorted*
+            # qubit order; with q0 < q1 the same state is prepared correctly.  Only then use the known mechanism key.
+            a, b = cirq.LineQubit(0), cirq.LineQubit(1)
+            v2, _, _ = P.post_state_prep(a, b, psi, run(a, b), lambda g: g == want, who, tol, s1)
+            if all(ok for _, _, ok, _ in v2):
+                v = [(mon, mech if ok else "C15:prepare_two_qubit_state:wrong-state-when-q0-sorts-after-q1", ok, msg)
+                     for mon, mech, ok, msg in v]
+        _emit(ctx, v, state=psi, schmidt_small=s1, which=which, qubits=[repr(q0), repr(q1)])
         ctx.distinct(("prep", which, _fp(psi)), nontrivial=s1 > 1e-6)
         ctx.sample({"routine": "state_prep", "which": which, "schmidt_small": s1, "entanglers": n})
     elif sub == 1:  # Clifford tableau synthesis
@@ -751,12 +832,12 @@ def sec_misc(ctx, rng, case):
 
 
 SECTIONS = [
-    ("kak", sec_kak, 1400, 60000, 1.5),
-    ("linalg", sec_linalg, 1400, 50000, 1.0),
-    ("oneq", sec_oneq, 1400, 50000, 1.0),
-    ("cz", sec_cz, 1000, 40000, 4.0),
-    ("sqrt_iswap", sec_sqrt_iswap, 800, 30000, 3.0),
-    ("other2q", sec_other2q, 1000, 30000, 2.5),
-    ("multiq", sec_multiq, 500, 8000, 4.0),
-    ("misc", sec_misc, 900, 30000, 1.5),
+    ("kak", sec_kak, 7000, 100000, 12.0),
+    ("linalg", sec_linalg, 14000, 200000, 3.0),
+    ("oneq", sec_oneq, 14000, 200000, 2.0),
+    ("cz", sec_cz, 6000, 80000, 9.0),
+    ("sqrt_iswap", sec_sqrt_iswap, 5000, 70000, 6.0),
+    ("other2q", sec_other2q, 6000, 80000, 8.0),
+    ("multiq", sec_multiq, 2400, 20000, 14.0),
+    ("misc", sec_misc, 10000, 140000, 3.0),
 ]
